@@ -514,6 +514,8 @@ fn gen_scenario(rng: &mut Rng, thorough: bool, n_ops: usize) -> Option<(Scenario
             let choice = if burst && ops.is_empty() { 10 } else { choice };
             let choice = if join_family && rng.chance(4, 5) { 10 } else { choice };
             let choice = if stream_family && rng.chance(5, 6) { 10 } else { choice };
+            // over the bridges a view read races with the other calls more often (serialized views)
+            let choice = if bridge != 0 && !ops.is_empty() && !ops.iter().any(|o| matches!(o, ConcOp::View)) && rng.chance(1, 4) { 0 } else { choice };
             let op = match choice {
                 0 => Some(ConcOp::View),
                 1 => Some(ConcOp::Act(Action::Noop)),
